@@ -58,7 +58,7 @@ def cases(ctx):
             w["via"] = rng.choice(["sow_combos", "sow_cases"])
             w["case_spelling"] = rng.choice(["dict", "tuple"])
         w["constants"] = {}
-        if farmer == "runner" and rng.random() < 0.35:
+        if farmer in ("runner", "harvester") and rng.random() < 0.35:
             # sow-time constants take precedence over the runner's stored ones, in the values and in the labelling
             w["constants"] = rng.choice([{"kc": 99}, {"extra_c": 7}, {"kc": "override", "k2": 0.5}])
         nset = gens.n_settings(w["combos"], w["cases"])
@@ -322,7 +322,7 @@ def run_case(ctx, case):
                                   **({"constants": dict(w["constants"])} if w["constants"] else {}))
             elif farmer == "harvester":
                 try:
-                    direct_run(f2, overwrite=case["policy"])
+                    direct_run(f2, overwrite=case["policy"], **({"constants": dict(w["constants"])} if w["constants"] else {}))
                     out2 = f2.last_ds
                 except Exception as e:
                     err2 = e
